@@ -13,10 +13,6 @@ def LeaveMode.isShutdown : LeaveMode → Bool
   | .shutdown => true
   | _ => false
 
-def LeaveMode.killAll : LeaveMode → Bool
-  | .killed _ ka => ka
-  | _ => false
-
 namespace Realm
 
 theorem find?_key {l : List Session} {k : SessKey} {c : Session}
@@ -71,7 +67,7 @@ theorem leave_some {r : Realm} {k : SessKey} {s : Session} (mode : LeaveMode)
     (h : r.clients.find? (fun c => c.key == k) = some s) :
     r.leave k mode =
       leaveClose (leaveAnnounce (leaveRemove ((leaveSend r k mode).takeTestaments k).2 k mode.isShutdown) s
-        ((leaveSend r k mode).takeTestaments k).1 (mode.isShutdown || mode.killAll)) s := by
+        ((leaveSend r k mode).takeTestaments k).1 mode.isShutdown) s := by
   have hk : s.key = k := (find?_key h).2
   subst hk
   unfold Realm.leave
@@ -85,12 +81,11 @@ theorem leave_some {r : Realm} {k : SessKey} {s : Session} (mode : LeaveMode)
     extract_lets o ra r3 ts r4
     have e1 : r1 = leaveSend r s.key mode := by cases mode <;> rfl
     have eS : isSh = mode.isShutdown := by cases mode <;> rfl
-    have eK : ka = mode.killAll := by cases mode <;> rfl
     have e3 : r3 = leaveRemove r2 s.key isSh := rfl
-    have e4 : r4 = leaveAnnounce r3 s tst (isSh || ka) := rfl
+    have e4 : r4 = leaveAnnounce r3 s tst isSh := rfl
     show leaveClose r4 s = _
     have htt' : (leaveSend r s.key mode).takeTestaments s.key = (tst, r2) := e1 ▸ htt
-    rw [e4, e3, eS, eK, htt']
+    rw [e4, e3, eS, htt']
 
 /-! ### equations of `runTask`, `stepOp`, `drain`, `advance` -/
 
